@@ -71,6 +71,8 @@ def task_yaml(P, T):
             inp['x'] = {v: read_expr(v, T.get('jinja')) for v in T['reads']}
         if T.get('bad_input'):
             inp['p'] = '<% $.nosuch.attr.deep %>'
+        if T.get('with_items') is not None:
+            inp['i'] = '<% $.i %>'
         d['input'] = inp
     if T.get('with_items') is not None:
         d['with-items'] = T['with_items']
